@@ -46,6 +46,8 @@ class C06(Check):
             yield spec
         for spec in strchain():
             yield spec
+        for spec in tryexit():
+            yield spec
 
     def describe(self, spec):
         if spec[0] == "corpus":
@@ -54,7 +56,7 @@ class C06(Check):
             return "ctl %s" % (spec[1],)
         if spec[0] == "opc":
             return "opcode-prefix %s: %s" % (spec[1], " ".join(spaces.OPCODE_PREFIXES[i] for i in spec[1][0])[:200])
-        return "%s %s" % (spec[0] if spec[0] in ("hookerr", "strchain") else "bound", spec[1])
+        return "%s %s" % (spec[0] if spec[0] in ("hookerr", "strchain", "tryexit") else "bound", spec[1])
 
     def build(self, spec):
         base = {"dump": True, "trace": True, "step_limit": 1500000}
@@ -161,6 +163,39 @@ def strchain():
                 out.append(("strchain", "module/%s/%d/%s" % (kind, d, use[:12]), pre + stmt + "\nprint('done');\n"))
                 out.append(("strchain", "fn/%s/%d/%s" % (kind, d, use[:12]), pre + "fn f() { %s }\nf();\nprint('done');\n" % stmt))
                 out.append(("strchain", "fiber/%s/%d/%s" % (kind, d, use[:12]), pre + "let c = chan(1);\nfn w(c) { %s c <- 1; }\nlaunch w(c);\nprint(<- c);\n" % stmt))
+    return out
+
+
+def tryexit():
+    """a try inside a loop body that declared locals, whose block declares locals of its own and ends by leaving (break / continue / return /
+    raise) or not; the catch clause is shallow, deeper than the try block, or holds a try of its own that catches: the depth live at the
+    catch label is the one recorded where the try begins, whatever the last instruction of the block left behind. Run directly and in a
+    launched fiber (whose stack has exactly the slots the compiler reserved)."""
+    out = []
+    exits = {"plain": "acc = acc + 1;", "break": "break;", "continue": "continue;", "return": "return acc + 100;", "raise": "raise Error('y');"}
+    catches = {
+        "simple": "acc = acc + 10;",
+        "nested_try": "try { raise Error('n'); } catch e2: Error { acc = acc + 20 + e.message.len() + e2.message.len()%s; }",
+        "deep_expr": "acc = acc + [[1, 2, [3, 4, [5, 6, [7, 8, [9]]]]]].len() + pick(1, 2, 3, pick(4, 5, 6, pick(7, 8, 9, 10)))%s;",
+        "nested_try_deep": "try { raise Error('n'); } catch e2: Error { let c1 = 1; let c2 = [c1, [c1, [c1]]]; acc = acc + pick(c1, c2.len(), e.message.len(), pick(1, 2, 3, e2.message.len()))%s; }",
+    }
+    for loop in ("while", "for"):
+        for nl in (0, 1, 2, 3):
+            for nt in (0, 1, 2):
+                for ex, extext in exits.items():
+                    for cname, ctext in catches.items():
+                        ll = "".join("let a%d = %d; " % (k, k + 1) for k in range(nl))
+                        tl = "".join("let t%d = %d; " % (k, k + 5) for k in range(nt))
+                        uses = "".join(" + a%d" % k for k in range(nl))
+                        cbody = ctext % uses if "%s" in ctext else ctext
+                        head = "let i = 0; while i < 2 { i = i + 1; " if loop == "while" else "for i in 2.times() { "
+                        fn = ("fn pick(a, b, c, d) { return a + d; }\nfn f(fail) { let acc = 0; %s%stry { %sif fail { raise Error('first'); } %s } catch e: Error { %s } acc = acc + 1000%s; } return acc; }\n"
+                              % (head, ll, tl, extext, cbody, uses))
+                        name = "%s/locals%d/trylocals%d/%s/%s" % (loop, nl, nt, ex, cname)
+                        out.append(("tryexit", "direct/" + name, fn + "try { print(f(false)); } catch e { print('u', e.message); }\ntry { print(f(true)); } catch e { print('u', e.message); }\nprint('done');\n"))
+                        out.append(("tryexit", "fiber/" + name, fn + "let c = chan(2);\nfn w(c, fail) { let r = nil; try { r = f(fail); } catch e { r = e.message; } c <- r; }\nlaunch w(c, false);\nlaunch w(c, true);\nprint(<- c);\nprint(<- c);\n"
+                                    "fn g(c) { let acc = 0; %s%stry { %sif acc == 0 { raise Error('first'); } %s } catch e: Error { %s } acc = acc + 1000%s; } c <- acc; }\nlaunch g(c);\nprint(<- c);\n"
+                                    % (head, ll, tl, extext if ex != "return" else "c <- 7; return;", cbody, uses)))
     return out
 
 
